@@ -196,6 +196,7 @@ func runC17(r *run) {
 				switch g.intn(3) {
 				case 0:
 					opts = append(opts, slog.RegWithPrintToErrorDevice())
+					toErr = true
 				case 1:
 					opts = append(opts, slog.RegWithPrintToErrorDevice(false))
 				default:
